@@ -243,6 +243,21 @@ def run_shard(ctx, spec):
             drive(mon, g, e, n, esaa=True, reps=False)
             drive(mon, g, e, n, age=50, esaa=True, reps=False)
         if (g, e) == ('M', '800'):
+            # every public function of the module that takes an `esaa` option (today: score; discovered from the signatures of
+            # the tree under test) is called with it for this row before the plain calls: none of them may edit the shared row
+            import inspect
+            am = sys.modules['athlib.athlon_score']
+            for fname, fobj in sorted(vars(am).items()):
+                if fname.startswith('_') or not inspect.isfunction(fobj) or fobj is mon.score or attach.original(fobj) is attach.original(mon.score):
+                    continue
+                try:
+                    pars = inspect.signature(fobj).parameters
+                except (TypeError, ValueError):
+                    continue
+                if 'esaa' in pars and len(pars) >= 4:
+                    for third in (120.0, 769, 861):
+                        attach.call(fobj, 'M', '800', third, esaa=True)
+                        ctx.count('eval.other-functions-with-an-esaa-option')
             # the ESAA option must not leak into later plain calls (and vice versa): interleave them
             for n in marks:
                 drive(mon, g, e, n, esaa=True, reps=False)
